@@ -89,68 +89,118 @@ def delivered_cost(fn, arg, conn, n, want_label=None):
 
 
 def work_bfs(task, p):
-    from htstabilizer.stabilizer_circuits import get_preparation_circuit, compress_preparation_circuit
-    from htstabilizer.stabilizer import Stabilizer
-    from htstabilizer.lc_classes import determine_lc_class
-    from htstabilizer import circuit_lookup
+    """Round 1: the competitor side.  BFS over the LC-class transition graph of one configuration; every
+    witness circuit is re-simulated and re-measured by the oracle before it is used as a competitor."""
     _, n, conn, seed = task
-    rnd = random.Random("%s-%s-%s" % (n, conn, seed))
     dist, circ, st = bfs(n, conn)
     K = lcorbit.NUM_ORBITS[n]
     p.counters["classes reached by BFS %d-%s" % (n, conn)] = len(dist)
     if len(dist) != K:
         p.errors.append("BFS on %d-%s reached %d of %d classes" % (n, conn, len(dist), K))
         return
-    orb = lcorbit.orbit_members(n)
     p.extra.setdefault("maxdist", {})["%d-%s" % (n, conn)] = max(dist.values())
+    out = {}
     for B in sorted(dist):
         w = circ[B]
-        opt = dist[B]
-        if connectivity_violations(w, oconn.edge_set(n, conn)) or cost_depth(w, n)[0] != opt or lcorbit.orbit_label(state_of(w, n), n) != B:
+        if connectivity_violations(w, oconn.edge_set(n, conn)) or cost_depth(w, n)[0] != dist[B] or lcorbit.orbit_label(state_of(w, n), n) != B:
             p.errors.append("witness of class %d on %d-%s inconsistent" % (B, n, conn))
             continue
-        gens = st[B]
-        ok, cid = call(lambda: determine_lc_class(Stabilizer(ws.strings(gens, n))).id())
-        cid = cid if ok else "?"
-        ok, tcost = call(lambda: circuit_lookup.stabilizer_circuit_lookup(n, conn, cid).cost)
-        obs = []
-        c, g, lab = delivered_cost(compress_preparation_circuit, ws.qiskit_circuit(w, n), conn, n)
-        obs.append(("compress(witness)", c, g, lab))
-        c, g, lab = delivered_cost(get_preparation_circuit, Stabilizer(ws.strings(gens, n)), conn, n)
-        obs.append(("prepare(witness state)", c, g, lab))
+        out[B] = (dist[B], w)
+    p.extra.setdefault("bfs", {})[(n, conn)] = out
+    p.evals += len(out)
+
+
+def second_round(total, tier, seed):
+    """Round 2: the delivered side.  For every class the real APIs are called on all configurations of
+    that qubit count *in one process, consecutively*, sparse connectivities first and then dense ones
+    (and the reverse for the random members), so a result that depends on what was requested before
+    for another connectivity shows up as well."""
+    bfs_data = total.extra.pop("bfs", {})
+    tasks = []
+    for n in range(2, 7):
+        confs = [c for c in oconn.configs_for(n) if (n, c) in bfs_data]
+        labels = sorted(set(lcorbit.orbit_table(n)))
+        random.Random(seed + n).shuffle(labels)
+        k = {2: 1, 3: 1, 4: 2, 5: 8, 6: 64}[n]
+        size = (len(labels) + k - 1) // k
+        for i in range(0, len(labels), size):
+            ch = labels[i:i + size]
+            payload = {c: {B: bfs_data[(n, c)][B] for B in ch if B in bfs_data[(n, c)]} for c in confs}
+            tasks.append(("api", n, ch, payload, seed * 100 + i))
+    return tasks
+
+
+def judge_delivery(p, n, conn, B, opt, w, obs, cid, tcost):
+    case = {"kind": "class", "n": n, "conn": conn, "orbit": B, "class_id": cid, "optimum": opt, "witness": [[nm, list(qs)] for nm, qs in w]}
+    worst = None
+    for api, c, g, lab in obs:
+        if c is None:
+            p.counters["api raised"] += 1
+            continue
+        if lab != B:
+            p.counters["delivered circuit prepares another class (C01's business)"] += 1
+            continue
+        if connectivity_violations(g, oconn.edge_set(n, conn)):
+            p.counters["delivered circuit violates the coupling graph (C02's business)"] += 1
+            continue
+        if c < opt:
+            p.errors.append("oracle inconsistency: %s delivered class %d on %d-%s with %d two-qubit gates < BFS distance %d: [%s]"
+                            % (api, B, n, conn, c, opt, fmt_gates(g)))
+        elif c > opt and (worst is None or c > worst[1]):
+            worst = (api, c, g)
+    if worst:
+        api, c, g = worst
+        p.violate("suboptimal n=%d conn=%s class=%s delivered=%d optimum=%d" % (n, conn, cid, c, opt),
+                  "class %s on %d-%s is delivered with %d two-qubit gates (table cost %s, %s -> [%s]) but the competitor [%s] prepares a "
+                  "state of that class with %d" % (cid, n, conn, c, tcost, api, fmt_gates(g), fmt_gates(w), opt), case)
+        p.counters["suboptimal %d-%s" % (n, conn)] += 1
+    else:
+        p.counters["optimal %d-%s" % (n, conn)] += 1
+
+
+def work_api(task, p):
+    from htstabilizer.stabilizer_circuits import get_preparation_circuit, compress_preparation_circuit
+    from htstabilizer.stabilizer import Stabilizer
+    from htstabilizer.lc_classes import determine_lc_class
+    from htstabilizer import circuit_lookup
+    _, n, labels, payload, seed = task
+    rnd = random.Random("%s-%s" % (n, seed))
+    orb = lcorbit.orbit_members(n)
+    confs = sorted(payload, key=lambda c: (len(oconn.EDGES[(n, c)]), c))         # sparse first
+    for B in labels:
+        obs = {c: [] for c in confs}
+        meta = {}
+        for c in confs:
+            if B not in payload[c]:
+                continue
+            opt, w = payload[c][B]
+            gens = state_of(w, n)
+            ok, cid = call(lambda: determine_lc_class(Stabilizer(ws.strings(gens, n))).id())
+            cid = cid if ok else "?"
+            ok, tcost = call(lambda: circuit_lookup.stabilizer_circuit_lookup(n, c, cid).cost)
+            meta[c] = (cid, tcost if ok else "?")
+            cst, g, lab = delivered_cost(compress_preparation_circuit, ws.qiskit_circuit(w, n), c, n)
+            obs[c].append(("compress(witness)", cst, g, lab))
+            cst, g, lab = delivered_cost(get_preparation_circuit, Stabilizer(ws.strings(gens, n)), c, n)
+            obs[c].append(("prepare(witness state)", cst, g, lab))
         for _ in range(2):
             m = ws.member(B, n, rnd, orb[B])
-            c, g, lab = delivered_cost(get_preparation_circuit, Stabilizer(ws.strings(m["gens"], n)), conn, n)
-            obs.append(("prepare(random member)", c, g, lab))
-        p.evals += len(obs)
-        if B:
-            p.nontrivial((n, conn, B))
-        case = {"kind": "class", "n": n, "conn": conn, "orbit": B, "class_id": cid, "optimum": opt,
-                "witness": [[nm, list(qs)] for nm, qs in w]}
-        worst = None
-        for api, c, g, lab in obs:
-            if c is None:
-                p.counters["api raised"] += 1
+            for c in reversed(confs):                                             # dense first
+                if B in payload[c]:
+                    cst, g, lab = delivered_cost(get_preparation_circuit, Stabilizer(ws.strings(m["gens"], n)), c, n)
+                    obs[c].append(("prepare(random member)", cst, g, lab))
+        for c in confs:
+            if B not in payload[c]:
                 continue
-            if lab != B:
-                p.counters["delivered circuit prepares another class (C01's business)"] += 1
-                continue
-            if c < opt:
-                p.errors.append("oracle inconsistency: %s delivered class %d on %d-%s with %d two-qubit gates < BFS distance %d: [%s]"
-                                % (api, B, n, conn, c, opt, fmt_gates(g)))
-            elif c > opt and (worst is None or c > worst[1]):
-                worst = (api, c, g)
-        if worst:
-            api, c, g = worst
-            p.violate("suboptimal n=%d conn=%s class=%s delivered=%d optimum=%d" % (n, conn, cid, c, opt),
-                      "class %s on %d-%s is delivered with %d two-qubit gates (table cost %s, %s -> [%s]) but the competitor [%s] prepares a "
-                      "state of that class with %d" % (cid, n, conn, c, tcost if ok else "?", api, fmt_gates(g), fmt_gates(w), opt), case)
-            p.counters["suboptimal %d-%s" % (n, conn)] += 1
-        else:
-            p.counters["optimal %d-%s" % (n, conn)] += 1
-        if len(p.samples) < 1 and opt >= 3:
-            p.sample({"n": n, "connectivity": conn, "class id": cid, "optimum (BFS distance)": opt, "witness competitor": fmt_gates(w),
-                      "delivered": [[api, c] for api, c, g, lab in obs]})
+            opt, w = payload[c][B]
+            p.evals += len(obs[c])
+            if B:
+                p.nontrivial((n, c, B))
+            judge_delivery(p, n, c, B, opt, w, obs[c], meta[c][0], meta[c][1])
+            p.counters["classes judged %d-%s" % (n, c)] += 1
+            if len(p.samples) < 1 and opt >= 3:
+                p.sample({"n": n, "connectivity": c, "class id": meta[c][0], "optimum (BFS distance)": opt, "witness competitor": fmt_gates(w),
+                          "delivered": [[api, cst] for api, cst, g, lab in obs[c]]})
 
 
 def random_walk(n, conn, rnd):
@@ -208,6 +258,8 @@ def work(task):
     p.max_viol = 5000
     if task[0] == "bfs":
         work_bfs(task, p)
+    elif task[0] == "api":
+        work_api(task, p)
     else:
         work_walk(task, p)
     return p
@@ -215,7 +267,7 @@ def work(task):
 
 def finalize(total, tier, seed):
     from ..core import Inconclusive
-    reached = sum(v for k, v in total.counters.items() if k.startswith("classes reached"))
+    reached = sum(v for k, v in total.counters.items() if k.startswith("classes judged"))
     total.extra["ev_config_class_pairs"] = reached
     total.extra["ev_max_optimum_per_configuration"] = total.extra.pop("maxdist", {})
     total.extra["exhaustive"] = True
